@@ -15,11 +15,15 @@ def root():
     global _root
     if _root is None or not os.path.isdir(_root):
         base = os.environ.get("VF_SCRATCH")
-        cands = [os.path.join(base, "w%d" % os.getpid())] if base else []
-        cands += [os.path.join(b, "pyscsi-verif-%d" % os.getpid()) for b in ("/dev/shm", "/dev")]
+        # (the name carries a time stamp besides the pid: worker processes end without running exit handlers, and a later worker of
+        # the same run may be given the pid of an earlier one)
+        import time
+        tag = "%d-%x" % (os.getpid(), time.time_ns() & 0xFFFFFFFFFF)
+        cands = [os.path.join(base, "w" + tag)] if base else []
+        cands += [os.path.join(b, "pyscsi-verif-" + tag) for b in ("/dev/shm", "/dev")]
         for cand in cands:
             try:
-                os.makedirs(cand, exist_ok=True)
+                os.makedirs(cand, exist_ok=False)
                 _root = cand
                 break
             except OSError:
